@@ -115,7 +115,13 @@ impl BasicConstraints {
             w.bool("CA:", true)?;
         }
         if let Some(len) = self.path {
-            w.integer("Path Len Constraint", &[len])?;
+            // A DER INTEGER is signed: a value with the top bit set needs a leading zero octet,
+            // otherwise 128..=255 would be written as a negative number
+            if len >= 0x80 {
+                w.integer("Path Len Constraint", &[0, len])?;
+            } else {
+                w.integer("Path Len Constraint", &[len])?;
+            }
         }
         w.end_seq()
     }
